@@ -171,6 +171,38 @@ func solve(o *Obligation, cfg *SolverCfg) {
 			}
 		}
 	}
+	if res != "sat" && res != "unsat" && o.Expect == "unsat" && o.Kind != "cover" && strings.Contains(text, "(hint") {
+		// stage 4: the same query with the redundant quantifier instances switched off (they are
+		// consequences of the quantified formulas they accompany, so this is an equivalent query;
+		// they help most proofs and get in the way of some)
+		t2 := strings.Replace(text, "(define-fun hint ((b Bool)) Bool b)", "(define-fun hint ((b Bool)) Bool true)", 1)
+		t2 = strings.Replace(t2, "(define-fun hinte ((b Bool)) Bool b)", "(define-fun hinte ((b Bool)) Bool false)", 1)
+		f2 := strings.TrimSuffix(file, ".smt2") + ".noinst.smt2"
+		os.WriteFile(f2, []byte(t2), 0o644)
+		ctx, cancel := context.WithCancel(context.Background())
+		type r struct{ res, out, name string }
+		ch := make(chan r, len(solvers))
+		for _, sd := range solvers {
+			go func(sd solverDef) {
+				a, b := runOne(ctx, sd, f2, cfg.Timeout)
+				ch <- r{a, b, sd.name}
+			}(sd)
+		}
+		for i := 0; i < len(solvers); i++ {
+			x := <-ch
+			if x.res == "sat" || x.res == "unsat" {
+				res, out, solver = x.res, x.out, x.name
+				if res == "sat" {
+					text = t2
+				}
+				break
+			}
+		}
+		cancel()
+		if res == "unsat" {
+			os.Remove(f2)
+		}
+	}
 	o.Seconds = time.Since(start).Seconds()
 	o.Result, o.Solver, o.Output = res, solver, out
 	if res == "sat" && o.Expect == "unsat" {
@@ -202,18 +234,28 @@ func splitGoal(goal string) (string, []string) {
 		return "", nil
 	}
 	var out []string
-	var rec func(t string)
-	rec = func(t string) {
+	var rec func(t string, pre []string)
+	rec = func(t string, pre []string) {
 		a := sexprArgs(t)
 		if len(a) >= 2 && a[0] == "and" {
 			for _, c := range a[1:] {
-				rec(c)
+				rec(c, pre)
 			}
 			return
 		}
+		if len(a) == 3 && a[0] == "=>" {
+			// P => (X and Y)  is  (P => X) and (P => Y)
+			if c := sexprArgs(a[2]); len(c) >= 3 && (c[0] == "and" || c[0] == "=>") {
+				rec(a[2], append(append([]string{}, pre...), a[1]))
+				return
+			}
+		}
+		if len(pre) > 0 {
+			t = "(=> (and " + strings.Join(pre, " ") + ") " + t + ")"
+		}
 		out = append(out, t)
 	}
-	rec(neg[1])
+	rec(neg[1], nil)
 	if len(out) < 2 {
 		return "", nil
 	}
